@@ -144,7 +144,29 @@ func checkC03(c caseC03, rec *ev.Rec) *ev.Failure {
 
 func TestC03(t *testing.T) {
 	rec := ev.New("C03", "exploration")
-	rec.Rule = "valid LZMA2-only .xz streams from (a) a specification-driven generator: operation lists (literal, match, rep0-3, short rep; lengths biased to 2/273/codec boundaries; distances biased to 1, reps, the window edge), all seven chunk kinds in legal order incl. mid-stream state/property/dictionary resets and raw chunks, container layouts (4 check types, size fields, extra header padding, empty and zero-block streams), (b) liblzma with drawn options (presets, mf hc3..bt4, modes, nice_len, flushes, MT encoder), (c) a frozen xz-utils corpus; x ReaderConfig.DictCap in {4096, default, drawn}; in a third of the cases each decode follows an earlier reader instance of the same configuration in the same process that failed on a truncated or changed copy or was abandoned after one Read; oracle = constructed plaintext (= reference decoder = liblzma); non-trivial = non-empty content and at least one match/rep class, >= 2 chunks or a layout feature; distinct = hash of the stream bytes"
+	rec.Rule = "enumerated first: every block header length 12..1024 (size byte 0x02..0xFF), without and with size fields; then valid LZMA2-only .xz streams from (a) a specification-driven generator: operation lists (literal, match, rep0-3, short rep; lengths biased to 2/273/codec boundaries; distances biased to 1, reps, the window edge), all seven chunk kinds in legal order incl. mid-stream state/property/dictionary resets and raw chunks, container layouts (4 check types, size fields, extra header padding, empty and zero-block streams), (b) liblzma with drawn options (presets, mf hc3..bt4, modes, nice_len, flushes, MT encoder), (c) a frozen xz-utils corpus; x ReaderConfig.DictCap in {4096, default, drawn}; in a third of the cases each decode follows an earlier reader instance of the same configuration in the same process that failed on a truncated or changed copy or was abandoned after one Read; oracle = constructed plaintext (= reference decoder = liblzma); non-trivial = non-empty content and at least one match/rep class, >= 2 chunks or a layout feature; distinct = hash of the stream bytes"
 	rec.Assumptions = []string{"declared dictionary <= 1 MiB (codes <= 8) in generated streams of the quick tier; the thorough tier adds codes up to 28 (64 MiB)", "a disagreement between reference decoder, liblzma and the constructed plaintext is a harness error (inconclusive), never reported against the library"}
+	// every value of the block header size byte (header lengths 12, 16, ...
+	// 1024), without and with size fields, before the random cases
+	enumerate(t, rec, checkC03, func(try func(caseC03) bool) {
+		for k := 0; k <= 253; k++ {
+			if k%rec.Shards != rec.Shard {
+				continue
+			}
+			for _, sizes := range []int{0, 3} {
+				if sizes != 0 && k > 250 {
+					continue
+				}
+				c := caseC03{Src: gen.Src{Fmt: "xz", Origin: "ref", Seed: uint64(1000 + k), NOps: 6, NChunks: 1, NBlocks: 1 + k%2, Check: []byte{1, 4, 10, 0}[k%4], Sizes: sizes, ExtraPad: k}, DictCaps: []int{4096}}
+				rec.Class("header_size_byte_enumerated")
+				if !try(c) {
+					return
+				}
+			}
+		}
+	})
+	if t.Failed() {
+		return
+	}
 	drive(t, rec, drawC03, checkC03)
 }
